@@ -67,7 +67,7 @@ MIN = {
     'oracle_cylc_run_itself_rejected': 100,
     'alt_run_dir_checks': 2000,
 }
-NCASES = {'quick': 300, 'thorough': 6000}
+NCASES = {'quick': 300, 'thorough': 4000}
 NAMES_PER_CASE = 250
 
 RESERVED = {'log', 'share', 'work', 'runN', '.service', '_cylc-install',
